@@ -36,6 +36,8 @@ def find_dp_loops(body):
             # local straight-line values inside the inner body
             ex = Exec()
             env = Env()
+            for v in assigned_vars(inner.body):
+                env[v] = ('var', v + '@in')
             ex.run(inner.body, env)
             for ev in ex.events:
                 if ev[0] == 'store':
@@ -104,7 +106,7 @@ def _is_settings_obj(e):
 
 
 def term(e, amap):
-    return sym.from_ir(e, atom=amap)
+    return sym.from_ir(norm_minmax(e), atom=amap)
 
 
 def _split_row(idx_t, length_t, rows):
@@ -133,11 +135,14 @@ def _split_row(idx_t, length_t, rows):
 def extract_distance_kernel(name, body, params, lang, settings_names=('settings',), consts=None):
     """Return Facts for one rolling-buffer distance kernel."""
     F = Facts(name=name, lang=lang, problems=[])
+    from . import symexec as _sx
+    _sx.ARRAYS.clear()
     found = find_dp_loops(body)
     if found is None:
         raise AnalysisError('unrecognised shape: no DP loop nest in %s' % name)
     outer, inner, store_stmt, arr = found
     F.arr = arr
+    _sx.ARRAYS.add(arr)
     F.outer_line, F.inner_line = outer.line, inner.line
     amap = AtomMap(lang, params, settings_names)
     oi = body.index(outer)
@@ -196,8 +201,9 @@ def extract_distance_kernel(name, body, params, lang, settings_names=('settings'
     F.amap = amap
     # the DP store
     stores = [e for e in col.events if e[0] == 'store' and _strip_idx_base(e[2]) == ('var', arr) and reads_of(e[3], arr)]
-    if len(stores) != 1:
-        raise AnalysisError('unrecognised shape: %d DP stores in column loop of %s' % (len(stores), name))
+    if len(stores) < 1:
+        raise AnalysisError('unrecognised shape: no DP store in column loop of %s' % name)
+    F.stores = stores
     F.store = stores[0]
     # post-row statements
     post = Exec(havoc_tag='post')
